@@ -98,7 +98,7 @@ def gen_leaf(r, name, p):
         rec["metaEnvironment"] = {"META": tmpl(r, VARS)}
     if r.random() < 0.15:
         rec["shared"] = True
-    if r.random() < 0.15 and p["includes"]:
+    if r.random() < 0.3 and p["includes"]:
         bases = sorted(set(os.path.basename(n)[0] for n in p["includes"]))
         rec["packageScript"] += "\necho $<'../inc/%s*.txt'>" % r.choice(bases)
     if r.random() < 0.25 and p["classes"]:
@@ -302,7 +302,9 @@ def sync_dir(root, files, old_files, clock, r=None):
 
 EDIT_KINDS = ["recipe-script", "recipe-env", "recipe-vars", "recipe-dep-env", "recipe-dep-toggle", "class", "include-edit",
               "include-appear", "default-env", "opt-toggle", "opt-edit", "cfg-edit", "cfg-toggle", "define", "sandbox-toggle",
-              "recipe-add", "recipe-remove", "requery", "tool-edit", "same-size"]
+              "recipe-add", "recipe-remove", "requery", "tool-edit", "same-size",
+              # inputs that reach the caches through the key only are edited more often
+              "define", "define", "sandbox-toggle", "include-edit", "default-env"]
 
 
 def edit(r, p, inv):
